@@ -255,6 +255,48 @@ def layout(db: proto.TypeDB, tid: str, value) -> typing.List[typing.Tuple[int, i
     return items
 
 
+def bulk_regions(db: proto.TypeDB, tid: str, value) -> typing.List[typing.Tuple[int, int, str]]:
+    """(first_bit, end_bit, kind) of every array the generated code copies in bulk (bit-packed bool arrays, byte arrays, arrays
+    of standard-width primitives) that starts at a NON byte-aligned offset in the valid encoding of `value`."""
+    out: typing.List[typing.Tuple[int, int, str]] = []
+
+    def is_bulk(e):
+        return e['k'] == 'bool' or (e['k'] in ('uint', 'int', 'float') and e['w'] in (8, 16, 32, 64))
+
+    def walk_type(t, v, off: int) -> int:
+        k = t['k']
+        if k in ('bool', 'uint', 'int', 'float', 'void'):
+            return off + (1 if k == 'bool' else t['w'])
+        if k in ('farr', 'varr'):
+            if k == 'varr':
+                off += t['prefix_bits']
+                v = v[:t['cap']]
+            start = off
+            for e in v:
+                off = walk_type(t['elem'], e, off)
+            if is_bulk(t['elem']) and start % 8 != 0 and off > start:
+                out.append((start, off, '%s_of_%s%s' % (k, t['elem']['k'], t['elem'].get('w', ''))))
+            return off
+        c = db.comp(t['id'])
+        if not c['sealed']:
+            off += 32
+        return walk_comp(c, v, off)
+
+    def walk_comp(c, v, off: int) -> int:
+        if c['kind'] == 'union':
+            off += c['meta']['tag_bits']
+            if 0 <= v['tag'] < len(c['fields']):
+                off = walk_type(c['fields'][v['tag']]['type'], v['value'], off)
+        else:
+            for f, fv in zip(c['fields'], v):
+                off += _pad(off, f['type']['align'])
+                off = walk_type(f['type'], fv, off)
+        return off + _pad(off, 8)
+
+    walk_comp(db.comp(tid), value, 0)
+    return out
+
+
 def _set_bits(data: bytearray, off: int, width: int, val: int) -> None:
     for i in range(width):
         p = off + i
